@@ -42,15 +42,31 @@ def showRes : Option Result → String
   | some (.tupleRaw vs tail) => "t:" ++ showVals vs ++ ";raw=" ++ hexOfBytes tail
   | some (.raw bs) => "raw:" ++ hexOfBytes bs
 
-def step (j : Json) : Option String := do
+def respOf (j : Json) : Option (List UInt8 → List UInt8) :=
+  match fStr j "resp" with
+  | some h => do let r ← bytesOfHex h; pure fun _ => r
+  | none => some id                       -- the bus echoes the payload
+
+def step1 (j : Json) : Option String := do
   let args ← (← fArr j "args").mapM argOf
   let data ← dataOf j
   match encode args data with
   | none => pure "struct-error"
-  | some out =>
-    let resp ← match fStr j "resp" with
-      | some h => bytesOfHex h
-      | none => some out                  -- the bus echoes the payload
-    pure ("out=" ++ hexOfBytes out ++ " | " ++ showRes (decode args data resp))
+  | some out => pure ("out=" ++ hexOfBytes out ++ " | " ++ showRes (decode args data ((← respOf j) out)))
+
+def showWire : Wire → String
+  | .structError => "struct-error"
+  | .overflow => "overflow"
+  | .sent out res => "out=" ++ hexOfBytes out ++ " | " ++ showRes res
+
+/-- a wire case is a batch of requests submitted together through the real send loop -/
+def step (j : Json) : Option String :=
+  match fArr j "batch" with
+  | none => step1 j
+  | some reqs => do
+    let rs ← reqs.mapM fun r => do
+      let args ← (← fArr r "args").mapM argOf
+      pure (args, ← dataOf r, ← respOf r)
+    pure (" || ".intercalate ((wireAll rs).map showWire))
 
 def main : IO Unit := driverMain step
